@@ -400,9 +400,9 @@ fn read_def_user_function(cur: &mut SourceCursor, song: &mut Song) -> Token {
     let func_id = match func_val {
         SValue::UserFunc(func_id) => func_id,
         _ => {
-            // system error to analyze function in preprocess
-            read_error_cmd(cur, song, &format!("(System error) Define Function: {}", func_name));
-            0
+            // the preprocess pass did not register this function (e.g. it stopped at an END inside a '#' comment):
+            // report it instead of indexing song.functions with a made-up id
+            return read_error_cmd(cur, song, &format!("(System error) Define Function: {}", func_name));
         }
     };
     // register function to song.functions
